@@ -648,7 +648,7 @@ pub fn simulate(sc: &VmSc, obs: &mut Obs) -> Vec<Tagged> {
     if sc.long {
         let mut out = long_run(sc, obs);
         if let [steps] = sc.limits[..] {
-            if steps >= 1_000_000 && out.is_empty() {
+            if steps >= 1_000_000 && !out.iter().any(|t| t.prop == Prop::C03) {
                 out.extend(chunked_vs_whole(sc, steps, 6, obs));
             }
         }
